@@ -313,7 +313,10 @@ fn fam_findbyte(cx: &mut Cx) {
         for &n in lens.iter() {
             // (class of the haystack, needle absent from it)
             let combos: [(&str, u8); 7] = [("zeros", 0x41), ("zeros", 0x80), ("zeros", 0xFF), ("ramp", 200), ("high", 0x7F), ("high", 0), ("random", 0x80)];
-            for (class, c) in combos {
+            for (ci, (class, c)) in combos.into_iter().enumerate() {
+                if !cx.thorough && (ci + n) % 2 == 1 {
+                    continue;
+                }
                 let mut h = content(class, n, &mut rng);
                 for v in h.iter_mut() {
                     if *v == c {
